@@ -43,7 +43,17 @@ def run_impl(lines, version, dialect, vlevel, full):
     g = impl.gfapy()
 
     def build():
-        if full:
+        if full == 'file':
+            # the same document offered as a file, with the same parameters
+            import tempfile, os
+            fd, path = tempfile.mkstemp(prefix='c13_', suffix='.gfa')
+            try:
+                with os.fdopen(fd, 'w', newline='') as f:
+                    f.write('\n'.join(lines) + '\n')
+                G = g.Gfa.from_file(path, version=version, dialect=dialect, vlevel=vlevel)
+            finally:
+                os.unlink(path)
+        elif full:
             G = g.Gfa(list(lines), version=version, dialect=dialect, vlevel=vlevel)
         else:
             G = g.Gfa(version=version, dialect=dialect, vlevel=vlevel)
@@ -90,6 +100,10 @@ def expected_lines(names, v):
 
 
 def py_of(case):
+    if case.get('full') == 'file':
+        return ("import gfapy\nfor order in %r:\n  open('/tmp/doc.gfa','w').write('\\n'.join(order)+'\\n')\n  try:\n"
+                "    g=gfapy.Gfa.from_file('/tmp/doc.gfa',version=%r,dialect=%r,vlevel=%d); print(g.version)\n"
+                "  except gfapy.Error as e: print(type(e).__name__)" % (case['orders'], case['version'], case['dialect'], case['vlevel']))
     return ("import gfapy\nfor order in %r:\n  try:\n    g=gfapy.Gfa(order,version=%r,dialect=%r,vlevel=%d); print(g.version)\n"
             "  except gfapy.Error as e: print(type(e).__name__)" % (case['orders'], case['version'], case['dialect'], case['vlevel']))
 
@@ -118,6 +132,8 @@ def run(ctx, deep, model_ok):
         dialect = rng.choice(['standard', 'standard', 'rgfa'])
         vlevel = rng.choice([1, 2, 3])
         full = complete_refs(names) and dialect == 'standard'
+        if full and i % 3 == 0:
+            full = 'file'
         perms = list(itertools.permutations(names)) if len(names) <= 5 else None
         if perms is None or len(perms) > 60:
             perms = [tuple(rng.sample(names, len(names))) for _ in range(30)] + [tuple(names)]
@@ -143,6 +159,13 @@ def run(ctx, deep, model_ok):
             ctx.violation('failing-input', 'the outcome depends on the order of the lines', case2, a[0][1][:1], b[0][1][:1], python=py_of(case2))
             continue
         o = list(outcomes.values())[0][0][1]
+        # an explicitly given version is contradicted by any construct of the other version
+        other = {'gfa1': 'V2', 'gfa2': 'V1'}.get(version)
+        if other and o[0] in ('gfa1', 'gfa2') and any(other in POOL[x][1] for x in names):
+            ctx.violation('failing-input', 'a document with a %s-only construct was accepted although version=%r was given (%s entry)'
+                          % ('GFA' + other[1], version, 'file' if full == 'file' else 'constructor' if full else 'add_line'),
+                          case, 'VersionError', o[0], python=py_of(case))
+            continue
         if o[0] == 'other':
             ctx.violation('failing-input', 'a document of individually valid lines raised %s' % (o[1],), case, python=py_of(case))
             continue
